@@ -4,27 +4,27 @@ import json, sys
 
 CHECKS = {
  "C02": dict(
-   text="One accepted Runge-Kutta step from an arbitrary symbolic state on the linear test equation y' = lambda*y (lambda, y, step bounds and tolerance symbolic, the property's coupling |lambda| dt_max <= 2 tol^(1/5) resp. tol^(1/3) as polynomial constraints, the exact flow enclosed by a degree-9 Taylor polynomial with explicit remainder): on every accepting path z3 (nlsat) proves |y_new - e^(lambda h) y| <= 4 tol h. RK23 in the quick tier, RK45 in the thorough tier. Partial: the multistep solvers and non-linear problems are outside.",
-   note="Real arithmetic; one-step claim from an arbitrary state (complete for one-step methods on this family); Adams/BDF steps, quadrature problems (Lipschitz constant 0: the property's coupling is vacuous) and the 1e-13 reference flow are outside.",
-   tech="symbolic execution of the real Runge-Kutta stepper + SMT (z3 nlsat) with a Taylor enclosure of the exact flow",
+   text="One accepted Runge-Kutta step from an arbitrary symbolic state on the linear test equation y' = lambda*y (lambda, y, step bounds and tolerance symbolic, the property's coupling |lambda| dt_max <= 2 tol^(1/5) resp. tol^(1/3) as polynomial constraints, the exact flow enclosed by a degree-9 Taylor polynomial with explicit remainder): on every accepting path z3 (nlsat) proves |y_new - e^(lambda h) y| <= 4 tol h. RK23 in the quick tier, RK45 in the thorough tier. Partial: the multistep solvers and non-linear problems are outside. Multistep solvers: Adams3/Adams5 on y' = lambda*y (seeded concrete lambda and step bounds; start, tolerance symbolic) through an accepted start-up and through a REJECTED start-up whose retry factor (tol/2err)^(1/O) stays symbolic: every consecutive pair of yielded points is within 8 tol h + |y||lambda h|^5/20 of the exact flow and time advances; BDF2 likewise (bound 8 tol; all step sizes concrete); on y' = a + b t (a, b, start, tolerance, end time symbolic) every yielded pair of Adams3/5 and BDF6 (RK and BDF2 in the thorough tier) lies on the exact flow.",
+   note="Real arithmetic; one-step claim from an arbitrary state for Runge-Kutta; for the multistep solvers seeded concrete lambda and step bounds with a natively calibrated tolerance window (selects the sub-family, decides nothing); quadrature problems of degree >= 2, non-linear right-hand sides and the 1e-13 reference flow are outside.",
+   tech="symbolic execution of the real Runge-Kutta, Adams and BDF steppers + SMT (z3 nlsat/simplex) with a Taylor enclosure of the exact flow",
    ref="6/C02"),
  "C04": dict(
-   text="Decided parts: a dynamically sized state gives the same path (times, states, number of derivative evaluations) as a statically sized one for an arbitrary right-hand side and symbolic configuration (Euler, Adams3; RK23/RK45 in the thorough tier); the complex problem y' = lambda*y in C^1 and the equivalent real 2x2 system give the same points (Euler; RK23 in the thorough tier) with lambda, start and configuration symbolic; Euler's first-order global bound on y' = lambda*y over 4 steps. The convergence ladders over long intervals are outside the bound.",
+   text="Decided parts: a dynamically sized state gives the same path (times, states, number of derivative evaluations) as a statically sized one for an arbitrary right-hand side and symbolic configuration (Euler, Adams3; RK23/RK45 in the thorough tier); the complex problem y' = lambda*y in C^1 and the equivalent real 2x2 system give the same points (Euler; RK23 in the thorough tier) with lambda, start and configuration symbolic; Euler's first-order global bound on y' = lambda*y over 4 steps. The convergence ladders over long intervals are outside the bound. Global accuracy: every yielded state of Adams3/Adams5 on y' = lambda*y is within 8 tol of the true solution at the yielded time, through accepted and rejected start-ups (harness shared with C02). Complex dimension 2: with seeded complex stage directions times two symbolic amplitudes and a symbolic tolerance, every accept/reject decision of RK23 and RK45 agrees (1e-6 relative margin) with the Euclidean norm of the embedded estimate, i.e. with the norm of the equivalent real 4-vector.",
    note="Real arithmetic; prefixes of 2-4 points; tolerance ladders, dimension 3-4 and problem-dependent constants of non-linear problems are outside.",
    tech="symbolic execution of the real steppers at Sym, Complex<Sym>, Const<2> and Dyn + SMT-decided equality of the resulting terms",
    ref="6/C04"),
  "C05": dict(
-   text="The one-step controller contract the work bound follows from: for an arbitrary right-hand side and symbolic configuration every Runge-Kutta retry after a rejection uses a step in [0.1, 0.9] x the rejected step (no unbounded run of rejections), growth is at most 4x and capped by dt_max, every attempt costs exactly the stage count; all six adaptive solvers complete solutions at rest and straight-line solutions on short horizons without error, land on the end time with the exact state and spend work proportional to the number of steps; on y' = lambda*y the first trial step is accepted whenever tol >= K |lambda y| |lambda h|^p (estimator order; RK23 quick, all six thorough).",
+   text="The one-step controller contract the work bound follows from: for an arbitrary right-hand side and symbolic configuration every Runge-Kutta retry after a rejection uses a step in [0.1, 0.9] x the rejected step (no unbounded run of rejections), growth is at most 4x and capped by dt_max, every attempt costs exactly the stage count; all six adaptive solvers complete solutions at rest and straight-line solutions on short horizons without error, land on the end time with the exact state and spend work proportional to the number of steps; on y' = lambda*y the first trial step is accepted whenever tol >= K |lambda y| |lambda h|^p (estimator order; RK23 quick, all six thorough). Estimator order is also decided for all six solvers on 5 seeded concrete (lambda, h) pairs (|lambda h| from 0.25 down to 0.002) with start value and tolerance symbolic (linear queries).",
    note="Real arithmetic with IEEE semantics for division by a zero error estimate; the global evaluation count over long intervals is the pen-and-paper corollary and is not machine-checked.",
    tech="symbolic execution of the real controllers + SMT (z3 nlsat) per-step contract; DFS over accept/reject patterns",
    ref="6/C05"),
  "C08": dict(
-   text="On the sub-class where each method is exact in finitely many steps: affine systems A(x-r) (seeded concrete well-conditioned A, dimension 1-2 quick / 1-3 thorough; root, start, tolerance and finite-difference width symbolic; starts arbitrary, at the origin and exactly on the root) are solved by newton and secant within 4 tol; singular A gives Err; Steffensen returns the fixed point of every affine contraction |a| <= 0.9 down to tol = 1e-13, also when started on it; newton_polynomial returns the root of every degree-1 polynomial from any start.",
-   note="Real arithmetic; the non-linear part of the property and muller_polynomial are outside (no finite-step exactness for a solver to decide).",
+   text="On the sub-class where each method is exact in finitely many steps: affine systems A(x-r) (seeded concrete well-conditioned A, dimension 1-2 quick / 1-3 thorough; root, start, tolerance and finite-difference width symbolic; starts arbitrary, at the origin and exactly on the root) are solved by newton and secant within 4 tol; singular A gives Err; Steffensen returns the fixed point of every affine contraction |a| <= 0.9 down to tol = 1e-13, also when started on it; newton_polynomial returns the root of every degree-1 polynomial from any start. Genuinely non-linear members in one dimension: f(x) = (x-r)(1+c(x-r)) with seeded curvature and root (0, 0.8125, -0.066, 1000, -65536), start r+delta (|delta| <= 0.2) and tolerance symbolic: newton and newton_polynomial (all iterations) and secant (2 loop iterations quick / 3 thorough) return a point within 4 tol (x max(1,|r|) for the Newton variants, whose test is relative) of the root.",
+   note="Real arithmetic; non-linear systems of dimension >= 2, non-polynomial non-linearities, polynomials of degree >= 3 and muller_polynomial are outside.",
    tech="symbolic execution of the real iterations (incl. nalgebra LU) + SMT (z3 nlsat/simplex)",
    ref="6/C08"),
  "C17": dict(
-   text="linear_fit: normal equations, exact-line reproduction and order independence with symbolic abscissae and ordinates (n <= 4) and seeded abscissae with symbolic ordinates (n <= 24/60); Levenberg-Marquardt on a model linear in its parameters with symbolic data and start: the first trial parameter vector handed to the model closure is proved to be the damped normal-equation step with the true Jacobian (analytic and finite-difference variants), a start at the optimum is returned, invalid tolerance / width / damping / lengths are rejected before any model call. One known finding (finite-difference Jacobian) is reported as KNOWN-FINDING.",
+   text="linear_fit: normal equations, exact-line reproduction and order independence with symbolic abscissae and ordinates (n <= 4) and seeded abscissae with symbolic ordinates (n <= 24/60); Levenberg-Marquardt on a model linear in its parameters with symbolic data and start: the first trial parameter vector handed to the model closure is proved to be the damped normal-equation step with the true Jacobian (analytic and finite-difference variants), a start at the optimum is returned, invalid tolerance / width / damping / lengths are rejected before any model call. One known finding (finite-difference Jacobian) is reported as KNOWN-FINDING. Damping schedule (analytic variant, 3 seeded damping/multiplier pairs including damping 500): the second iteration's two trial vectors are proved to be the damped normal-equation steps from the first iteration's accepted point with the relaxed damping.",
    note="Real arithmetic; LM to convergence from a start away from the optimum and non-linear models are outside (measured: not viable past 3 iterations).",
    tech="symbolic execution of the real fitting code (incl. nalgebra LU) + SMT (z3 simplex/nlsat); the trial step is observed through the model closure",
    ref="6/C17"),
@@ -54,8 +54,8 @@ CHECKS = {
    tech="symbolic execution at a term-building scalar + SMT (z3: nlsat for bilinear, simplex for linear queries)",
    ref="6/C11"),
  "C12": dict(
-   text="Symbolic execution of Polynomial::divide: for fully symbolic dividend and divisor (up to degree 6/3) and symbolic dividend x seeded concrete divisor (up to degree 12/8), on every feasible path (each elimination step forks on whether the leading remainder coefficient is negligible) z3 proves dividend = quotient*divisor + remainder coefficient-wise, deg remainder < deg divisor, the quotient degree, zero remainder for exact multiples, scaling by constant divisors and Err for the zero divisor; complex dividends with concrete complex divisors.",
-   note="Real arithmetic; |leading| >= 0.1; exact multiples restricted to quotients whose coefficients are all non-negligible (otherwise the zero tolerance legitimately leaves a remainder of size tol*|d|/|d_lead|).",
+   text="Symbolic execution of Polynomial::divide: for fully symbolic dividend and divisor (up to degree 6/3) and symbolic dividend x seeded concrete divisor (up to degree 12/8), on every feasible path (each elimination step forks on whether the leading remainder coefficient is negligible) z3 proves dividend = quotient*divisor + remainder coefficient-wise, deg remainder < deg divisor, the quotient degree, zero remainder for exact multiples, scaling by constant divisors and Err for the zero divisor; complex dividends with concrete complex divisors. ROUNDING MODEL harnesses: with every +,-,*,/ inside divide returning exact*(1+delta), |delta| <= 2^-53 (delta a function of the exact result), dividend coefficients symbolic up to 1e8 and a seeded concrete non-monic divisor (lengths 3/2, 4/3), z3 proves the Euclidean identity up to 64(n+1) eps (|q||d|+|p|+|r|) + 1e-8 on every path, including those where a rounding residue above the zero tolerance makes the same power be eliminated twice.",
+   note="Exact real arithmetic in the main harnesses, the standard (1+delta) model without overflow/underflow in the rounding-model harnesses; |leading| >= 0.1; exact multiples restricted to quotients whose coefficients are all non-negligible.",
    tech="symbolic execution at a term-building scalar + SMT (z3 nlsat / simplex), DFS over the negligible-coefficient branches",
    ref="6/C12"),
  "C13": dict(
